@@ -15,6 +15,7 @@ def step (line : String) : String :=
   | some "U" => ParseEngine.step fields
   | some "S" => SeriesEngine.step fields
   | some "W" => PushEngine.step fields
+  | some "F" => PushEngine.stepF fields
   | some "T" => ApplyEngine.stepT fields
   | _ => "bad-op"
 
